@@ -57,7 +57,7 @@ def run(pid, bdir, seed, plan):
             if r.returncode != 0:
                 kills.append({"seeded": os.path.basename(sdir), "result": "patch does not apply to the current tree (skipped)"})
                 continue
-            env = dict(os.environ, VERIF_REPO=tmp, VERIF_NO_EVIDENCE="1", VERIF_TIER="quick")
+            env = dict(os.environ, VERIF_REPO=tmp, VERIF_NO_EVIDENCE="1", VERIF_NO_PROBES="1", VERIF_TIER="quick")
             r = subprocess.run([os.path.join(vx.VERIF, "bin", "check"), pid], env=env, stdout=subprocess.PIPE, stderr=subprocess.PIPE, text=True)
             lines = [l for l in r.stdout.splitlines() if l.startswith(("VIOLATION", "UNDECIDED", "OK"))]
             kills.append({"seeded": os.path.basename(sdir), "exit": r.returncode, "output": lines[:4]})
